@@ -7,6 +7,7 @@
    writers by parsing their output back. *)
 From Coq Require Import Init.Byte ZArith List Bool.
 Require Import Ojg.Base.Bytes Ojg.Base.Jv Ojg.Json.Writer Ojg.Json.WriterFacts.
+Require Import Ojg.Json.Machine Ojg.Json.Ref Ojg.Json.RefParse Ojg.Json.WRound Ojg.Json.WInt Ojg.Json.WFinal.
 Import ListNotations.
 
 Theorem C04_stream_eq : forall o lim v, write_all o (Some lim) v = write_all o None v.
@@ -19,3 +20,29 @@ Proof. exact stream_text. Qed.
 
 Print Assumptions C04_stream_eq.
 Print Assumptions C04_stream_invariant.
+
+(* Valid JSON denoting the data: for every option set (indent, tab, sort, omit options, HTML-safe
+   strings), every WriteLimit and every tree whose float / big-number texts are JSON numbers, the
+   reference parser accepts the writer's output and reads it back as ONE document, the written tree
+   (toref: numbers as their text, strings with invalid UTF-8 replaced by U+FFFD, members omitted by
+   OmitNil / OmitEmpty gone, members whose names collide after that replacement merged as a parser
+   merges duplicates). In single- and multi-document mode alike. *)
+Theorem C04_round_trip : forall one o lim v,
+  let v' := if w_sort o then sort_tree v else v in
+  numtexts_ok v' = true ->
+  ref_parse one false (write_all o lim v) = Some [toref o v'].
+Proof. exact writer_round_trip. Qed.
+
+(* integers are always written as JSON numbers *)
+Theorem C04_int_text_is_number : forall z, num_ok (format_int z) = true.
+Proof. exact num_ok_format_int. Qed.
+
+(* non-vacuity: {"a":[1,"x<\n\xff",true],"b":null}, indent 2, HTML-safe, OmitNil *)
+Example C04_round_trip_example :
+  let o := mkW 2 false true true false true in
+  let v := JObj [([x62], JNull); ([x61], JArr [JInt 1; JStr [x78; x3c; x0a; xff]; JBool true])] in
+  ref_parse true false (write_all o (Some 4) v) =
+    Some [JObj [([x61], JArr [JBig [x31]; JStr [x78; x3c; x0a; xef; xbf; xbd]; JBool true])]].
+Proof. vm_compute. reflexivity. Qed.
+
+Print Assumptions C04_round_trip.
